@@ -452,7 +452,7 @@ func HarnessC17Track() {
 		name := names[verifrt.NondetRange("name", 0, len(names)-1)]
 		switch verifrt.NondetRange("op", 0, 2) {
 		case 0:
-			ci := verifrt.NondetRange("cid", 0, len(zzvPoolCids)-1)
+			ci := verifrt.NondetRange("cid", 0, verifrt.Param("CIDS", 2)-1)
 			ts := verifrt.NondetU64("tsize")
 			verifrt.Assume(ts < 1<<14)
 			err := d.AddChild(ctx, name, &zzvChild{c: zzvCid(zzvPoolCids[ci], byte(i+1)), size: ts})
